@@ -243,8 +243,9 @@ class Model():
                 f' of model"{self.name}".'
             )
 
-        # First remove all of the associations
-        for association in asset.associations:
+        # First remove all of the associations. Iterate over a copy since
+        # the list of the asset is updated by the removal.
+        for association in list(asset.associations):
             self.remove_asset_from_association(asset, association)
 
         # Also remove all of the entry points
@@ -305,6 +306,11 @@ class Model():
         if not found:
             raise LookupError(f'Asset "{asset.name}"({asset.id}) is not '
                 'part of the association provided.')
+
+        # The association lives on without the asset, so the asset must
+        # no longer refer to it
+        asset.associations = [assoc for assoc in asset.associations
+            if assoc is not association]
 
     def _validate_association(self, association: SchemaGeneratedClass) -> None:
         """Raise error if association is invalid or already part of the Model.
